@@ -663,6 +663,11 @@ func classify(lvl string, b []byte, withString bool, r *ClsRec) {
 	if r.Cats == nil {
 		r.Cats = map[string]bool{}
 	}
+	// a panic leaves the record half filled: every field starts from a fixed value so that a replay sees the same record
+	for _, k := range []string{"channel", "syscommon", "realtime", "sysex", "unknown", "meta"} {
+		r.Cats[k] = false
+	}
+	r.Type, r.Play = "", false
 	r.Panic = hx.Catch(func() {
 		if lvl == "midi" {
 			m := midi.Message(b)
